@@ -23,9 +23,9 @@ def parseVal (s : String) : Option Val :=
   | ["B", "false"] => some (.bool false)
   | ["Q", d, u] => do pure (.quantity (← parseDec d) (← unhexBytes u))
   | ["O", t] => some (.other t)
-  | ["Da", l, c, i] => do pure (.date ⟨← parseInts c, ← parseInts i, ← str? l⟩)
-  | ["DT", l, c, i] => do pure (.dateTime ⟨← parseInts c, ← parseInts i, ← str? l⟩)
-  | ["T", l, c, i] => do pure (.time ⟨← parseInts c, ← parseInts i, ← str? l⟩)
+  | ["Da", l, c, i] => do pure (.date ⟨← parseInts c, ← parseInts i, ← str? l, 0⟩)
+  | ["DT", l, c, i, o] => do pure (.dateTime ⟨← parseInts c, ← parseInts i, ← str? l, ← o.toInt?⟩)
+  | ["T", l, c, i] => do pure (.time ⟨← parseInts c, ← parseInts i, ← str? l, 0⟩)
   | _ => none
 
 def showDec (d : Dec) : String :=
@@ -39,7 +39,7 @@ def showVal : Val → String
   | .bool b => if b then "B:true" else "B:false"
   | .quantity d u => "Q:" ++ showDec d ++ ":" ++ hexBytes u
   | .date t => "Da:" ++ hexBytes t.layout.toUTF8.toList ++ ":" ++ showInts t.comps ++ ":" ++ showInts t.inst
-  | .dateTime t => "DT:" ++ hexBytes t.layout.toUTF8.toList ++ ":" ++ showInts t.comps ++ ":" ++ showInts t.inst
+  | .dateTime t => "DT:" ++ hexBytes t.layout.toUTF8.toList ++ ":" ++ showInts t.comps ++ ":" ++ showInts t.inst ++ ":" ++ toString t.off
   | .time t => "T:" ++ hexBytes t.layout.toUTF8.toList ++ ":" ++ showInts t.comps ++ ":" ++ showInts t.inst
   | .other t => "O:" ++ t
 
